@@ -79,7 +79,8 @@ def cases(ctx):
             yield {"kind": "prog", "prog": prog, "script": sc}
     # register handles: measured, measured into again (same handle) in the same or a later flush segment, used in conditions
     for _ in range(ctx.n(150, 15000)):
-        prog, seg, names, nq = [{"op": "qalloc", "q": "k0"}], [], [], 0
+        prog, seg, names, nq = [{"op": "qalloc", "q": "k0"}, {"op": "array", "name": "t0", "init": [0, 0]}], [], [], 0
+        tally = rng.random() < 0.6
         for _j in range(rng.randrange(4, 12)):
             c = rng.choice(["new", "new", "reuse", "reuse", "flush", "if"])
             if c == "flush":
@@ -101,6 +102,10 @@ def cases(ctx):
                     prog.append({"op": "meas", "q": q, "to": {"kind": "reg", "name": nm}, "inplace": False})
                 if nm not in seg:
                     seg.append(nm)
+                if tally and rng.random() < 0.6:
+                    # the outcome just measured selects the array entry that is counted up (one handle per register handle,
+                    # kept by the host across re-measurements and flushes)
+                    prog.append({"op": "add", "target": {"kind": "entry", "array": "t0", "idx": {"reg": nm}}, "other": rng.choice([1, 2, 5]), "mod": None})
         yield {"kind": "prog", "prog": prog, "script": [rng.randrange(2) for _ in range(24)], "family": "register-handles"}
     # every measurement script (all outcome sequences) for programs with few random measurements
     for _ in range(ctx.n(40, 4000)):
@@ -165,7 +170,7 @@ def run_case(ctx, case):
     def fail(what, key):
         ctx.fail(case, what, key=key)
     try:
-        res = hostdiff.run_differential(prog, script, fail, ctx.count)
+        res = hostdiff.run_differential(prog, script, fail, ctx.count, neighbours=ctx.evaluations % 3 == 1)
     except hostdiff.Discard as d:
         ctx.count("discarded_" + str(d).split(":")[0].replace(" ", "_"))
         return ctx.case(case, False)
